@@ -51,7 +51,7 @@ CLAIMED = {
     ref='DESIGN.md section 5, C03'),
   'C04': dict(
     text='A Gallina model of the UpdateContext protocol behind nnx.jit / remat / cond / switch / while_loop / fori_loop / cached_partial (outer split with one ref_index for all arguments, inner '
-         'merge, inner split carrying outer indices, outer merge re-using the caller\'s objects) and of a language of functions on object graphs (reads, Variable updates with int64 arithmetic, '
+         'merge, inner split carrying outer indices, outer merge re-using the caller\'s objects) and of a language of functions on object graphs (reads, Variable updates with int64 arithmetic, replacement of the metadata of a Variable, '
          'setattr of statics / aliases / new Variables / new nodes, delattr). PROVED for every function of the language, heap, tuple of possibly aliased arguments and number of applications '
          'of the body: whenever the eager run and the protocol run both complete they are observed alike -- same returned value, same graph of (arguments, returned object) as graphdef + '
          'leaves, and every object is the same one of the caller\'s original objects in both (C04_ctx_equals_eager; value-only variant for cond / switch / loops). The proof goes through a '
@@ -61,7 +61,7 @@ CLAIMED = {
     note='Trusted: Coq kernel, vm_compute, harness (function interpreter, canonical form), jaxcompat, JAX tracing / lax control flow / jit cache. NOT proved: that the protocol run completes '
          'whenever the eager run does (fuel sufficiency of the model\'s flatten) and that JAX evaluates the traced function like Python; decided per run. Loops are modelled as one protocol run '
          'around the k-fold body. cached_partial: value updates, and exactly-one-structural-edit cases that must raise; graphs without array attributes (known findings F16 stale clone, F20 '
-         'array attributes); F21 (aliased cached arguments, KeyError) and F35 (nnx.jit dropped edits of Variable metadata) found by this check and fixed. Edits of Variable metadata, long lists / digit-keyed dicts and loop bodies that change which object an attribute holds are oracle families (lifted vs eager on the real code), not in the function language of the model. pmap / shard_map / custom_vjp / eval_shape not run. No axioms.',
+         'array attributes); F21 (aliased cached arguments, KeyError) and F35 (nnx.jit dropped edits of Variable metadata) found by this check and fixed. Edits of Variable metadata are a statement of the function language of the model (MSetMeta: the write-back theorems cover them; generated under jit / remat / eager); long lists / digit-keyed dicts, metadata edits under cond / switch and loop bodies that change which object an attribute holds are oracle families (lifted vs eager on the real code). pmap / shard_map / custom_vjp / eval_shape not run. No axioms.',
     technique='Coq proof (simulation between the caller\'s heap and the inner copy by induction over the function body; joint invariant of flatten and placed unflatten by fuel induction; '
               'invariance of flatten under heap isomorphism) + per-run model-vs-implementation correspondence by vm_compute',
     ref='DESIGN.md section 5, C04'),
